@@ -8,10 +8,12 @@
    total after `record_batch` (an arbitrary number as far as this model is concerned).
    File system calls are assumed not to fail except opening a file that was never created.
 
-   A write / finish that awaits file I/O is not atomic: reader events listed in [during] run after
-   its file effects and before it publishes the new status (this is how the harness drives it: poll
-   the future once, run the reader events, then await it).  When the call does not await (batch kept
-   in memory, or an error return) the [during] events simply run after it. *)
+   A write / finish that awaits file I/O is not atomic: the harness polls the call's future once,
+   runs the reader events listed in [during], then awaits the future.  The flag [awaited] records
+   whether that first poll returned Pending (a scheduling fact: the blocking file task may already
+   have completed): if so the [during] events run after the call's file effects and before it
+   publishes the new status, otherwise they run after the whole call.  When the call does not await
+   at all (batch kept in memory, or an error return) the [during] events simply run after it. *)
 From LanceV Require Import Common.Base.
 
 Section Spill.
@@ -186,8 +188,8 @@ Definition finish_begin (st : spill) : spill * (sres + nat) :=
   end.
 
 Inductive event :=
-| EWrite (b : B) (total : N) (during : list revent)
-| EFinish (during : list revent)
+| EWrite (b : B) (total : N) (awaited : bool) (during : list revent)
+| EFinish (awaited : bool) (during : list revent)
 | ESendError
 | EDrop
 | ERead (e : revent).
@@ -205,23 +207,32 @@ Definition file_exists (st : spill) : bool := match sp_file st with Some _ => tr
 Definition step (st : spill) (e : event) : spill * obs :=
   match e with
   | ERead re => let '(st', o) := rstep st re in (st', ORead o)
-  | EWrite b total during =>
+  | EWrite b total awaited during =>
       if negb (sp_alive st) then (st, OGone)
       else
         let '(st1, r) := write_begin st b total in
-        let '(st2, os) := rsteps st1 during in
         match r with
-        | Some res => (st2, OWrite res (file_exists st2) os)
-        | None => let st3 := publish st2 in (st3, OWrite SOk (file_exists st3) os)
+        | Some res => let '(st2, os) := rsteps st1 during in (st2, OWrite res (file_exists st2) os)
+        | None =>
+            if awaited then
+              let '(st2, os) := rsteps st1 during in
+              let st3 := publish st2 in (st3, OWrite SOk (file_exists st3) os)
+            else
+              let '(st2, os) := rsteps (publish st1) during in (st2, OWrite SOk (file_exists st2) os)
         end
-  | EFinish during =>
+  | EFinish awaited during =>
       if negb (sp_alive st) then (st, OGone)
       else
         let '(st1, r) := finish_begin st in
-        let '(st2, os) := rsteps st1 during in
         match r with
-        | inl res => (st2, OFinish res os)
-        | inr n => (publish (set_state st2 (SFinished None n)), OFinish SOk os)
+        | inl res => let '(st2, os) := rsteps st1 during in (st2, OFinish res os)
+        | inr n =>
+            if awaited then
+              let '(st2, os) := rsteps st1 during in
+              (publish (set_state st2 (SFinished None n)), OFinish SOk os)
+            else
+              let '(st2, os) := rsteps (publish (set_state st1 (SFinished None n))) during in
+              (st2, OFinish SOk os)
         end
   | ESendError =>
       if negb (sp_alive st) then (st, OGone)
@@ -239,7 +250,7 @@ Fixpoint run (st : spill) (es : list event) : spill * list obs :=
 (* the batch of a write that returned Ok *)
 Definition ev_written (e : event) (o : obs) : list B :=
   match e, o with
-  | EWrite b _ _, OWrite SOk _ _ => [b]
+  | EWrite b _ _ _, OWrite SOk _ _ => [b]
   | _, _ => []
   end.
 Fixpoint written (es : list event) (os : list obs) : list B :=
@@ -257,8 +268,8 @@ Fixpoint rdelivered (k : nat) (es : list revent) (os : list robs) : list B :=
 Definition ev_delivered (k : nat) (e : event) (o : obs) : list B :=
   match e, o with
   | ERead re, ORead ro => rdelivered k [re] [ro]
-  | EWrite _ _ d, OWrite _ _ os => rdelivered k d os
-  | EFinish d, OFinish _ os => rdelivered k d os
+  | EWrite _ _ _ d, OWrite _ _ os => rdelivered k d os
+  | EFinish _ d, OFinish _ os => rdelivered k d os
   | _, _ => []
   end.
 Fixpoint delivered (k : nat) (es : list event) (os : list obs) : list B :=
